@@ -52,11 +52,12 @@ type BlockSpec struct {
 }
 
 type Step struct {
-	Kind     string     `json:"kind"` // block | revert | restart
+	Kind     string     `json:"kind"` // block | revert | restart | finalize
 	Note     string     `json:"note,omitempty"` // generator's remark: which kind of block it meant to build (not interpreted)
 	Block    *BlockSpec `json:"block,omitempty"`
 	Expected bool       `json:"expected,omitempty"` // revert: pass ExpectedStateRoot
 	D        int        `json:"d,omitempty"`        // restart: application is D blocks ahead of the engine
+	Back     int        `json:"back,omitempty"`     // finalize: Finalize(FinalizedHeight = tip height - Back) (finalize_test.go)
 }
 
 type History struct {
@@ -116,6 +117,10 @@ type simStats struct {
 	reorgDepth              [5]int // reorgs by depth (index 4 = 4 or more)
 	recoveryDepthMax        int
 	descents                int    // runs of >= 2 consecutive removals through heights that saw >= 2 blocks each
+	// scans inside programs (scan_test.go) and Finalize (finalize_test.go)
+	sc                 scanCounters
+	commitDelAfterScan int // committed blocks deleting a persisted key that lay in the interval of a later scan of a hook / succeeding command
+	fin                finStats
 }
 
 type sim struct {
@@ -135,6 +140,7 @@ type sim struct {
 	pendingRemoved    int             // consecutive removals since the last committed block
 	multiRun          int             // consecutive removals at heights that saw >= 2 blocks
 	chainID           []byte
+	finalized         uint32 // highest FinalizedHeight passed to Finalize so far (diff records below it are pruned)
 	genesisBlock      *blockchain.Block
 	stats             simStats
 }
@@ -321,6 +327,9 @@ func (s *sim) checkObs(where string, m *mrun, trigger bool) *violation {
 	if !reflect.DeepEqual(s.rec.gets, m.gets) && !(len(s.rec.gets) == 0 && len(m.gets) == 0) {
 		return viol(sig, "%s: reads differ from the model\n  got  %+v\n  want %+v", where, s.rec.gets, m.gets)
 	}
+	if !reflect.DeepEqual(s.rec.scans, m.scans) && !(len(s.rec.scans) == 0 && len(m.scans) == 0) {
+		return viol(sig, "%s: what Iterate/Range returned inside the programs differs from the model (sorted map with the staged writes applied)\n  got  %+v\n  want %+v", where, s.rec.scans, m.scans)
+	}
 	if !reflect.DeepEqual(s.rec.probes, m.probes) && !(len(s.rec.probes) == 0 && len(m.probes) == 0) {
 		return viol(sig, "%s: staged state seen by the probe differs from the model\n  got  %+v\n  want %+v", where, s.rec.probes, m.probes)
 	}
@@ -419,7 +428,7 @@ func (s *sim) genesis(h *History) *violation {
 
 func (s *sim) execTx(where string, ctxID []byte, header *blockchain.BlockHeader, assets blockchain.BlockAssets, spec *TxSpec, m *mrun) (*blockchain.Transaction, *violation) {
 	tx := s.mkTx(spec)
-	m.gets, m.probes = nil, nil
+	m.gets, m.probes, m.scans = nil, nil, nil
 	out := m.runTx(spec.Module, &spec.Script)
 	s.rec.reset()
 	req := &labi.ExecuteTransactionRequest{ContextID: ctxID, Transaction: tx, Assets: assets, DryRun: spec.Dry, Header: header, Consensus: s.consensus()}
@@ -488,7 +497,7 @@ func scan(ops []Op) opStats {
 	stale := map[int]bool{}
 	for _, op := range ops {
 		switch op.K {
-		case "set", "del", "get", "has":
+		case "set", "del", "get", "has", "iter", "range":
 			if op.H == 1 {
 				if stale[op.S] {
 					st.retainedAfterRestore++
@@ -523,7 +532,7 @@ func (s *sim) block(where string, b *BlockSpec) *violation {
 		return viol("", "%s: InitStateMachine: %v", where, err)
 	}
 	ctxID := ires.ContextID
-	m := &mrun{st: tip.state.clone()}
+	m := &mrun{st: tip.state.clone(), base: tip.state}
 	hooks := [2]*BlockScript{&b.Hooks[0], &b.Hooks[1]}
 
 	m.runBlockHook(hooks, false)
@@ -552,7 +561,7 @@ func (s *sim) block(where string, b *BlockSpec) *violation {
 		run := m
 		if spec.Dry {
 			// a dry run works on a fresh overlay over the committed state and must leave the staged state alone
-			run = &mrun{st: tip.state.clone()}
+			run = &mrun{st: tip.state.clone(), base: tip.state}
 		}
 		tx, v := s.execTx(w, ctxID, header, assets, spec, run)
 		if v != nil {
@@ -563,7 +572,7 @@ func (s *sim) block(where string, b *BlockSpec) *violation {
 		}
 	}
 
-	m.gets, m.probes = nil, nil
+	m.gets, m.probes, m.scans = nil, nil, nil
 	m.runBlockHook(hooks, true)
 	s.rec.reset()
 	ares, err := s.abi.AfterTransactionsExecute(&labi.AfterTransactionsExecuteRequest{ContextID: ctxID, Assets: assets, Consensus: s.consensus(), Transactions: txs})
@@ -577,6 +586,7 @@ func (s *sim) block(where string, b *BlockSpec) *violation {
 		return v
 	}
 
+	s.stats.sc.add(&m.sc)
 	newTomb := nextTomb(s.tomb, tip.state, m.st)
 	if b.CommitDry {
 		cres, err := s.abi.Commit(&labi.CommitRequest{ContextID: ctxID, StateRoot: tip.root, DryRun: true})
@@ -637,8 +647,17 @@ func (s *sim) block(where string, b *BlockSpec) *violation {
 			break
 		}
 	}
+	for k := range m.scannedDeleted {
+		if _, ok := m.st[k]; !ok {
+			s.stats.commitDelAfterScan++
+			break
+		}
+	}
 	s.tomb = newTomb
 	s.stats.committed++
+	if s.stats.fin.finalizes > 0 {
+		s.stats.fin.blocksAfter++
+	}
 	s.noteCommit(height, tip.state.equal(m.st))
 	s.chain = append(s.chain, tipRec{height: height, root: cres.StateRoot, state: m.st, header: header})
 	if _, err := s.abi.Clear(&labi.ClearRequest{}); err != nil {
@@ -670,14 +689,21 @@ func (s *sim) revert(where string, expected bool) *violation {
 		var err2 error
 		rres, err2 = s.abi.Revert(req)
 		if err2 != nil {
+			if cur.height <= s.finalized {
+				return s.revertRefused(where, &cur, err2)
+			}
 			return viol("", "%s: Revert: %v; without expectation: %v", where, err, err2)
 		}
 		if bytes.Equal(rres.StateRoot, wantRoot) {
 			return viol("", "%s: Revert rejected the expected root %x but computes the same root: %v", where, wantRoot, err)
 		}
 	} else if err != nil {
+		if cur.height <= s.finalized {
+			return s.revertRefused(where, &cur, err)
+		}
 		return viol("", "%s: Revert: %v", where, err)
 	}
+	s.noteRevertVsFinalized(cur.height)
 	got := []byte(rres.StateRoot)
 	if !bytes.Equal(got, wantRoot) {
 		dev := tombRoot(prev.state, newTomb)
@@ -814,7 +840,10 @@ func (s *sim) run(h *History) (int, *violation) {
 			if d > len(s.chain)-1 {
 				d = len(s.chain) - 1
 			}
+			d = s.clampRecovery(d)
 			v = s.restart(where, d)
+		case "finalize":
+			v = s.finalize(where, st.Back)
 		}
 		if v != nil {
 			return i, v
